@@ -14,7 +14,8 @@
 (*   path     start (seed | master key k,c | an observed key), pub (the    *)
 (*            public extended key of start was taken first), api           *)
 (*            (subkey_for_path | child_private | child_public), the path   *)
-(*            as text or as list of elements, mids (the answers to the     *)
+(*            as text or as list of elements, callnet (the optional        *)
+(*            network argument, "" when omitted), mids (the answers to the *)
 (*            same call on every proper prefix of the path), got (the      *)
 (*            answer: observed key or refusal)                             *)
 (*   commute  start (private), one element: N(CKDpriv) = CKDpub(N) under   *)
@@ -52,6 +53,13 @@ StartKey(F, s) == CASE s.kind = "seed" -> Master(F, s.seed)
 StartPriv(s) == s.kind # "obs" \/ s.obs.priv
 
 Toks(r) == IF r.aslist THEN r.toks ELSE Tokens(r.path)
+
+(* The optional `network` argument of a derivation call (r.callnet, "" = omitted) names the network of the       *)
+(* resulting key object: it selects the version bytes of the serialization and nothing else.  Key material,      *)
+(* chain code, depth, child number and parent fingerprint are those of BIP32 whatever is passed - no clause of   *)
+(* Chain below looks at it.                                                                                      *)
+(* A call that derives nothing (no element) may hand back the receiver as it is.                                  *)
+EffNet(r) == IF r.callnet = "" \/ ParsePath(Toks(r)).elems = <<>> THEN r.net ELSE r.callnet
 
 \* the call is a derivation from the private key (TRUE) or from the public key (FALSE):
 \* child_public(i) is public derivation whatever the receiver, child_private(i, h) exists for private receivers only
@@ -140,7 +148,7 @@ Prefetch(r) ==
     IN (IF r.start.kind = "seed" THEN <<QHmac(BitcoinSeed, r.start.seed)>> ELSE <<>>)
        \o Concat([j \in 1..Len(all) |-> ObsQs(all[j])])
        \o stepq(p0) \o (IF p1.steps # p0.steps THEN stepq(p1) ELSE <<>>)
-       \o WifQs(r.got, r.net, r.wt)
+       \o WifQs(r.got, EffNet(r), r.wt)
 
 WifCheck(F, key, g, net, wt) ==
     IF ~KnownVersion(net, wt) THEN Good
@@ -161,7 +169,7 @@ JPath(r) ==
         needs == c0.needs \o (IF cand THEN c1.needs ELSE <<>>)
     IN IF F = <<>> THEN Ask(Prefetch(r) \o needs)
        ELSE IF needs # <<>> THEN Ask(needs)
-       ELSE IF c0.v.c = "" THEN (IF c0.last.st = "ok" /\ r.got.ok THEN WifCheck(F, c0.last.val, r.got, r.net, r.wt) ELSE Good)
+       ELSE IF c0.v.c = "" THEN (IF c0.last.st = "ok" /\ r.got.ok THEN WifCheck(F, c0.last.val, r.got, EffNet(r), r.wt) ELSE Good)
        ELSE [Verdict(c0.v.c, IF cand /\ c1.v.c = "" THEN SelectSeq(DevOrder, LAMBDA x : x \in c1.plan.fired) ELSE <<>>,
                      IF c0.last.st = "ok" THEN Flat(c0.last.val) ELSE <<>>)
              EXCEPT !.at = c0.v.at]
